@@ -6,9 +6,11 @@ CONSTANTS
   MaxTmp = 2
   ArgcSet = {0}
   RegSet = {1}
+  EvalKinds = {"eval"}
+  CallKinds = {"call"}
+  WithModule = FALSE
 INIT Init
 NEXT Next
-CONSTRAINT Bound
 INVARIANT TypeOK
 INVARIANT Balanced
 INVARIANT FramePointersMonotone
